@@ -179,9 +179,14 @@ impl Indexable for ast::Def {
     fn index(&self, ctx: &mut IndexCtx) -> Option<Self::Output> {
         let defset_id = ctx.scopes.current_defset_id();
 
-        let def_id = match self.name().filter(|it| !is_named_after_defm(it)) {
-            Some(name_value) => {
-                let (name, define_loc) = index_name_value(name_value, ctx)?;
+        // a name that does not start with an identifier (`def "" : …`, `def !strconcat(…) : …`)
+        // is computed: the record is indexed like one without a name
+        let name = self
+            .name()
+            .filter(|it| !is_named_after_defm(it))
+            .and_then(|it| index_name_value(it, ctx));
+        let def_id = match name {
+            Some((name, define_loc)) => {
                 let def = Record::new(name, RecordKind::Def, define_loc);
                 ctx.symbol_map.add_record(def, defset_id.is_none())
             }
@@ -230,9 +235,12 @@ impl Indexable for ast::Defm {
     fn index(&self, ctx: &mut IndexCtx) -> Option<Self::Output> {
         let defset_id = ctx.scopes.current_defset_id();
 
-        let defm_id = match self.name().filter(|it| !is_named_after_defm(it)) {
-            Some(name_value) => {
-                let (name, define_loc) = index_name_value(name_value, ctx)?;
+        let name = self
+            .name()
+            .filter(|it| !is_named_after_defm(it))
+            .and_then(|it| index_name_value(it, ctx));
+        let defm_id = match name {
+            Some((name, define_loc)) => {
                 let defm = Defm::new(name, define_loc);
                 ctx.symbol_map.add_defm(defm, defset_id.is_none())
             }
